@@ -53,10 +53,89 @@ def strip_kinds(v):
     return v
 
 
+def run_concrete_c(program, cname, jargs):
+    from . import creplay
+    finfo, params, ret = creplay.signature(program, cname)
+    ex = Exec(program, 'run', max_iter=100000)
+    ex.check_overflow = True
+
+    def make_entry(ex):
+        st = State()
+        args = {n: creplay.c_from_json(jargs[n], t, st, n) for n, t in params}
+        return st, args
+    res = ex.explore(finfo, None, make_entry)
+    if len(res) != 1:
+        if not res and getattr(ex, 'last_false', None):
+            return ('exc', ex.last_false)
+        return ('paths', len(res))
+    st, result, exc, checks = res[0]
+    failed = [n for (n, kind, hyps, g, note, line) in checks if z3.is_false(z3.simplify(g))]
+    if failed:
+        return ('exc', failed[0])
+    after = {}
+    for n, t in params:
+        v = st.vars.get(n)
+        j = jargs[n]
+        if isinstance(j, dict) and 'buf' in j and hasattr(v, 'oid') and v.oid is not None:
+            o = st.heap[v.oid]
+            after[n] = [x.hex() if isinstance(x, float) else x for x in o.items]
+    if isinstance(result, float):
+        result = {'f': result.hex()}
+    elif isinstance(result, bool):
+        result = bool(result)
+    return ('ok', result, after)
+
+
+def sweep_c(run, cname, limit, out):
+    from . import creplay
+    c = CONTRACTS[cname]
+    if c.replay is None:
+        out['functions'][cname] = 'no input generator'
+        return
+    chk = creplay.CChecker(run.program, cname)
+    batch = [a for a in c.replay(run.rng, limit) if chk.check_requires(a)]
+    outs = creplay.native_c_calls(run.program, cname, batch)
+    n_ok, tv_n = 0, 0
+    for jargs, o in zip(batch, outs):
+        out['evaluations'] += 1
+        bad = chk.check_ensures(jargs, o)
+        if bad:
+            out['violations'].append(dict(function=cname, input=jargs, outcome=o, violated=bad))
+            if len(out['violations']) > 5:
+                break
+            continue
+        n_ok += 1
+        if tv_n < 25:
+            tv_n += 1
+            try:
+                r = run_concrete_c(run.program, cname, jargs)
+            except (Unsupported, PathEnd) as e:
+                r = ('unsupported', str(e))
+            out['executor_runs'] += 1
+            if r[0] == 'ok':
+                nat = o['result']
+                if isinstance(nat, dict) and 'f' in nat:
+                    nat = {'f': float.fromhex(nat['f']).hex()}
+                if json.dumps(r[1], sort_keys=True) != json.dumps(nat, sort_keys=True):
+                    out['mismatches'].append(dict(function=cname, input=jargs, native=nat, executor=r[1]))
+                for n, items in r[2].items():
+                    natb = [(float.fromhex(x['f']).hex() if isinstance(x, dict) else x) for x in o['args_after'][n]['buf']]
+                    if natb != items:
+                        out['mismatches'].append(dict(function=cname, input=jargs, buffer=n, native=natb, executor=items))
+            elif r[0] == 'exc':
+                out['mismatches'].append(dict(function=cname, input=jargs, native='ok', executor=str(r[1])))
+            else:
+                out.setdefault('executor_unsupported', []).append('%s: %s' % (cname, r[1]))
+    out['functions'][cname] = dict(inputs=len(batch), contract_held=n_ok)
+
+
 def sweep(run, cnames, limit):
     out = dict(evaluations=0, functions={}, mismatches=[], violations=[], executor_runs=0)
     for cname in cnames:
         c = CONTRACTS[cname]
+        if c.lang == 'c':
+            sweep_c(run, cname, max(20, limit // 6), out)
+            continue
         if c.lang != 'py' or getattr(c, 'no_sweep', False):
             continue
         chk = replay.ConcreteChecker(run.program, cname)
